@@ -66,6 +66,22 @@ def violTraversal (route : Route) (dt : Nat) (exp rem : Route) (km : Rat) (cellK
    | some a => if a.start == a.stop then ["C06/no-progress| partial traversal snapped back to the start cell of the link: the vehicle does not advance"] else []
    | none => []) ++
   (if ratClose km (exp.foldl (fun a l => a + l.dist) 0) then [] else ["C06/odometer| booked distance differs from the driven links"]) ++
+  -- a link whose whole-second travel time fits in what is left of the step is driven to its end
+  -- and leaves the route: a zero-length piece of it kept on the route costs the vehicle one more
+  -- step in the travelling activity after it has arrived
+  (match exp.getLast?, rem.head? with
+   | some a, some b =>
+     if a.id == b.id && a.stop == b.start && b.start == b.stop && a.start != a.stop then
+       match route.find? (fun l => l.id == a.id) with
+       | some l =>
+         let before : Int := exp.dropLast.foldl (fun t x => t + x.travelTime) 0
+         let whole := ({ l with speed := a.speed } : Link).travelTime
+         if whole ≤ (dt : Int) - before then
+           [s!"C06/late-exit| link {a.id} needs {whole} s and {(dt : Int) - before} s of the step were left, yet a zero-length piece of it stays on the route: the vehicle stands at the link's end and needs another step to leave it"]
+         else []
+       | none => []
+     else []
+   | _, _ => []) ++
   -- (the driven part of a split link is judged only on connected estimates: a generated link whose
   --  start was moved has a declared length shorter than its geometry)
   (if timeOk dt exp rem cellKm (connected route) then [] else ["C06/time-budget| driven links need more than the step's time (a vehicle moved farther than speed x time allows)"])
